@@ -16,6 +16,10 @@ CLAIMED = {
          "Discharges, over all writers of the Manager's state found by census, the side conditions of the inductive argument for the keyset invariant: atomicity of failing operations (no state write can be followed by a definitely-failing return), ID freshness/recording at every append site and in newRandomKeyID/NewManagerFromHandle/WithFixedID/Add, primary=>Enabled and non-primary-before-disable/delete guards on the same entry object, complete clearing loops after a primary is set, isolation of Handle()/NewManagerFromHandle() results (no shared entries slice or entry objects). It is a structural proof-obligation list, not an exploration of operation histories.",
          "Trusted: go/ssa; the hand argument from the listed side conditions to the invariant; idioms recognised (if-guards, range loops, comma-ok map lookups).",
          "DESIGN.md §4 C11"),
+ "C13": ("constant folding of the secret-classification predicate over every KeyMaterialType constant; census + dominance of every ingress/egress site of cleartext keysets; single-call/argument-identity rules for the keyset encryption helpers; backward slices of keyset-info fields",
+         "Decides the structural clauses of C13 completely: the per-key predicate of hasSecrets folds to true for UNKNOWN/SYMMETRIC/ASYMMETRIC_PRIVATE and false for PUBLIC/REMOTE independent of any other key field, and is applied to every key; every reference to the unguarded handle constructor and every cleartext Writer.Write is guarded by hasSecrets(same value)==false, fed by a checked decrypt*, or lives in the two insecure packages; decrypt*/encrypt* call the caller's AEAD exactly once with the caller's associated data and release a keyset only on its success; keyset-info fields derive from metadata only.",
+         "Trusted: go/ssa; confidentiality of the caller's AEAD; a key whose KeyMaterialType label contradicts its type URL is left to the per-type parsers (not decided here).",
+         "DESIGN.md §4 C13"),
 }
 
 NOT_APPLICABLE = {
